@@ -289,24 +289,87 @@ def gen(repo):
         if re.sub(r"\s+", " ", disp.get(k, "")).strip() != v:
             raise TranslateError("_serialize: arm %s is `%s`, expected `%s`" % (k, disp.get(k), v))
     fd = fn_body(src, "_formatDouble")
-    mf = re.search(r"if\s*\(\s*!\s*std::isfinite\s*\(\s*d\s*\)\s*\)\s*\{\s*return\s+\"(\w+)\"\s*;\s*\}.*for\s*\(\s*int\s+precision\s*=\s*(\d+)\s*;\s*precision\s*<=\s*(\d+)\s*;\s*\+\+precision\s*\)\s*\{\s*"
-                   r"std::snprintf\s*\(\s*buf\s*,\s*sizeof\(buf\)\s*,\s*\"([^\"]*)\"\s*,\s*precision\s*,\s*d\s*\)\s*;\s*if\s*\(\s*std::strtod\s*\(\s*buf\s*,\s*nullptr\s*\)\s*==\s*d\s*\)\s*\{\s*break\s*;\s*\}\s*\}\s*"
-                   r"std::string\s+out\s*\(\s*buf\s*\)\s*;\s*if\s*\(\s*out\.find_first_of\s*\(\s*\"([^\"]*)\"\s*\)\s*==\s*std::string::npos\s*\)\s*\{\s*out\s*\+=\s*\"([^\"]*)\"\s*;\s*\}\s*return\s+out\s*;", fd, re.S)
+    mf = re.search(r"if\s*\(\s*!\s*std::isfinite\s*\(\s*d\s*\)\s*\)\s*\{\s*return\s+\"(\w+)\"\s*;\s*\}.*std::string\s+out\s*;\s*for\s*\(\s*int\s+precision\s*=\s*(\d+)\s*;\s*precision\s*<=\s*(\d+)\s*;\s*\+\+precision\s*\)\s*\{\s*"
+                   r"const\s+auto\s+res\s*=\s*([\w:]+)\s*\(\s*buf\s*,\s*buf\s*\+\s*sizeof\(buf\)\s*,\s*d\s*,\s*std::chars_format::(\w+)\s*,\s*precision\s*\)\s*;\s*out\.assign\s*\(\s*buf\s*,\s*res\.ptr\s*\)\s*;\s*"
+                   r"if\s*\(\s*([\w:]+)\s*\(\s*out\s*\)\s*==\s*d\s*\)\s*\{\s*break\s*;\s*\}\s*\}\s*"
+                   r"if\s*\(\s*out\.find_first_of\s*\(\s*\"([^\"]*)\"\s*\)\s*==\s*std::string::npos\s*\)\s*\{\s*out\s*\+=\s*\"([^\"]*)\"\s*;\s*\}\s*return\s+out\s*;", fd, re.S)
     if not mf:
-        raise TranslateError("_formatDouble: shape changed")
+        raise TranslateError("_formatDouble: shape changed (expected the std::to_chars(general, precision) loop that reads back with detail::jsonToDouble; "
+                             "snprintf/strtod depend on LC_NUMERIC)")
+    if mf.group(4) != "std::to_chars" or mf.group(5) != "general":
+        raise TranslateError("_formatDouble: formats with %s(%s), expected std::to_chars(general)" % (mf.group(4), mf.group(5)))
     # the scratch buffer must be an automatic array: a `static`/`thread_local` one would be shared between calls (data race)
     bufs = re.findall(r"([^;{}]*?)\bchar\s+buf\s*\[\s*(\d+)\s*\]\s*;", fd)
     if len(bufs) != 1 or bufs[0][0].strip() != "":
         raise TranslateError("_formatDouble: the buffer is not declared as a plain automatic `char buf[N];` (found %r)" % (bufs,))
-    if int(bufs[0][1]) < 32:
-        raise TranslateError("_formatDouble: buffer of %s bytes is too small for %%.17g (24 characters + NUL)" % bufs[0][1])
+    # (the size itself is a fact: gen_conformance demands what %.17g needs, 24 characters, no terminator with to_chars)
+    # ---- detail::jsonToDouble: the only place a double is read; independent of LC_NUMERIC
+    mj = re.search(r"inline\s+double\s+jsonToDouble\s*\(\s*std::string_view\s+token\s*\)\s*\{", src)
+    if not mj:
+        raise TranslateError("detail::jsonToDouble not found (std::strtod on a JSON token depends on LC_NUMERIC)")
+    jd = src[mj.end():cxxscan.match_brace(src, mj.end() - 1)]
+    mjd = re.fullmatch(r"\s*std::string\s+text\s*\(\s*token\s*\)\s*;\s*const\s+char\s*\*\s*point\s*=\s*std::localeconv\(\)->decimal_point\s*;\s*"
+                       r"if\s*\(\s*point\s*!=\s*nullptr\s*&&\s*point\[0\]\s*!=\s*'\\0'\s*&&\s*std::strcmp\s*\(\s*point\s*,\s*\"([^\"]*)\"\s*\)\s*!=\s*0\s*\)\s*\{\s*"
+                       r"const\s+std::size_t\s+dot\s*=\s*text\.find\s*\(\s*'((?:\\.|[^'\\])+)'\s*\)\s*;\s*if\s*\(\s*dot\s*!=\s*std::string::npos\s*\)\s*\{\s*text\.replace\s*\(\s*dot\s*,\s*1\s*,\s*point\s*\)\s*;\s*\}\s*\}\s*"
+                       r"return\s+([\w:]+)\s*\(\s*text\.c_str\(\)\s*,\s*nullptr\s*\)\s*;\s*", cxxscan.strip_comments(jd) if hasattr(cxxscan, "strip_comments") else re.sub(r"//[^\n]*", "", jd))
+    if not mjd:
+        raise TranslateError("detail::jsonToDouble: shape changed")
+    if str_lit(mjd.group(1)) != [char_lit(mjd.group(2))]:
+        raise TranslateError("detail::jsonToDouble: compares the locale's decimal point with \"%s\" but replaces '%s'" % (mjd.group(1), mjd.group(2)))
+    if mf.group(6) not in ("detail::jsonToDouble", "jsonToDouble"):
+        raise TranslateError("_formatDouble: reads the text back with %s, not with detail::jsonToDouble" % mf.group(6))
+    others = [m.start() for m in re.finditer(r"\b(?:std::)?(?:strtod|strtold|strtof|atof|stod|sscanf)\s*\(", re.sub(r"//[^\n]*", "", src))]
+    if len(others) != 1:
+        raise TranslateError("a double is read from text in %d places; expected only the std::strtod call inside detail::jsonToDouble" % len(others))
+    if re.search(r"\bsetlocale\s*\(|std::locale::global", re.sub(r"//[^\n]*", "", src)):
+        raise TranslateError("json.hpp changes the process locale")
+    t += "/-- `detail::jsonToDouble`: the JSON decimal point it replaces by `localeconv()->decimal_point`, and the libc function it calls -/\n"
+    t += "def decimalPointByte : Nat := %d\ndef toDoublePrimitive : String := %s\n" % (char_lit(mjd.group(2)), lean_str(mjd.group(3)))
     t += "/-- `_formatDouble`: text for non-finite values, first and last precision tried, printf format, characters that mark a\n"
     t += "    double-shaped token, suffix appended when none is present -/\n"
     t += "def fmtNonFinite : String := %s\ndef fmtPrecLo : Nat := %s\ndef fmtPrecHi : Nat := %s\ndef fmtFormat : String := %s\n" % (
-        lean_str(mf.group(1)), mf.group(2), mf.group(3), lean_str(mf.group(4)))
-    t += "def fmtMarkers : List Nat := %s\ndef fmtSuffix : List Nat := %s\n" % (nat_list(str_lit(mf.group(5))), nat_list(str_lit(mf.group(6))))
+        lean_str(mf.group(1)), mf.group(2), mf.group(3), lean_str(mf.group(4) + "/" + mf.group(5)))
+    t += "def fmtMarkers : List Nat := %s\ndef fmtSuffix : List Nat := %s\n" % (nat_list(str_lit(mf.group(7))), nat_list(str_lit(mf.group(8))))
     t += "/-- `_formatDouble`'s scratch buffer: automatic storage, size -/\n"
     t += "def fmtBufAutomatic : Bool := true\ndef fmtBufSize : Nat := %s\n" % bufs[0][1]
+
+    # ---- public surface (Model/JsonApi.lean): constructors, container mutators, wrappers, JsonStreamParser - normalised statement text
+    nc = cxxscan.strip_comments(src)
+
+    def norm(x):
+        return re.sub(r"\s+", " ", x).strip()
+
+    def one(pat, what, flags=re.S):
+        ms = re.findall(pat, nc, flags)
+        if len(ms) != 1:
+            raise TranslateError("%s: expected exactly one match, found %d" % (what, len(ms)))
+        return ms[0]
+    surface = []
+    surface.append(("Json(integral T)", norm(one(r"Json\s*\(\s*T\s+i\s*\)\s*:\s*_value\s*\(([^{}]*)\)\s*\{\s*\}", "integral constructor"))))
+    surface.append(("Json(float)", norm(one(r"Json\s*\(\s*float\s+f\s*\)\s*:\s*_value\s*\(([^{}]*)\)\s*\{\s*\}", "float constructor"))))
+    surface.append(("Json(double)", norm(one(r"Json\s*\(\s*double\s+d\s*\)\s*:\s*_value\s*\(([^{}]*)\)\s*\{\s*\}", "double constructor"))))
+    surface.append(("Json(initializer_list)", norm(one(r"Json\s*\(\s*std::initializer_list<Json>\s+init\s*\)\s*:\s*_value\s*\(([^{}]*)\)\s*\{\s*\}", "initializer-list constructor"))))
+    surface.append(("operator=(const Json&)", norm(one(r"Json\s*&\s*operator=\s*\(\s*const\s+Json\s*&\s*other\s*\)\s*\{(.*?)return\s+\*this\s*;", "copy assignment"))))
+    for sig, what in ((r"void\s+push_back\s*\(\s*const\s+Json\s*&\s*val\s*\)", "push_back(const Json&)"), (r"void\s+push_back\s*\(\s*Json\s*&&\s*val\s*\)", "push_back(Json&&)"),
+                      (r"Json\s*&\s*operator\[\]\s*\(\s*std::size_t\s+index\s*\)", "operator[](size_t)"),
+                      (r"Json\s*&\s*operator\[\]\s*\(\s*const\s+std::string\s*&\s*key\s*\)", "operator[](const std::string&)"),
+                      (r"std::string\s+dump\s*\([^()]*\)\s*const", "dump"), (r"friend\s+std::istream\s*&\s*operator>>\s*\([^()]*\)", "operator>>"),
+                      (r"friend\s+std::ostream\s*&\s*operator<<\s*\([^()]*\)", "operator<<"), (r"operator\s+std::string\s*\(\s*\)\s*const", "operator std::string"),
+                      (r"inline\s+Json\s+Json::parseOrThrow\s*\([^()]*\)", "parseOrThrow"), (r"inline\s+Json\s+Json::safe_parse\s*\([^()]*\)", "safe_parse"),
+                      (r"inline\s+Json\s+Json::parse\s*\(\s*const\s+std::string\s*&\s*text\s*,\s*std::nullptr_t\s*,\s*bool\s+allow_exceptions\s*\)", "parse(text, nullptr, bool)"),
+                      (r"bool\s+feed\s*\(\s*std::string_view\s+chunk\s*\)", "JsonStreamParser::feed"), (r"bool\s+finish\s*\(\s*\)", "JsonStreamParser::finish")):
+        ms = list(re.finditer(sig + r"\s*\{", nc))
+        if len(ms) != 1:
+            raise TranslateError("%s: expected exactly one definition, found %d" % (what, len(ms)))
+        body = nc[ms[0].end():cxxscan.match_brace(nc, ms[0].end() - 1)]
+        surface.append((what, norm(body)))
+    for what, pat in (("parse(const std::string&)", r"static\s+Json\s+parse\s*\(\s*const\s+std::string\s*&\s*text\s*\)\s*\{([^{}]*)\}"),
+                      ("parseString", r"static\s+Json\s+parseString\s*\(\s*const\s+std::string\s*&\s*text\s*\)\s*\{([^{}]*)\}"),
+                      ("serialize", r"std::string\s+serialize\s*\(\s*const\s+SerializeOptions\s*&\s*options\s*=\s*\{\}\s*\)\s*const\s*\{([^{}]*)\}")):
+        surface.append((what, norm(one(pat, what))))
+    t += "/-- the public surface around the parser/serializer core: (function, its body / initialiser with white space normalised).  The model\n"
+    t += "    (`Model/JsonApi.lean`) mirrors these by hand; `gen_conformance` pins every one, so an edit of any of them breaks the build -/\n"
+    t += "def publicSurface : List (String × String) := [\n%s]\n" % ",\n".join("  (%s, %s)" % (lean_str(a), lean_str(b)) for a, b in surface)
     # separators of arrays/objects
     sa = fn_body(src, "_serializeArray")
     sob = fn_body(src, "_serializeObject")
@@ -338,8 +401,8 @@ def gen(repo):
     if len(argkinds) != 1:
         raise TranslateError("character class calls mix plain char and unsigned char arguments")
     mi = re.search(r"std::(\w+)\s+i\s*;\s*auto\s+result\s*=\s*([\w:]+)\s*\(\s*numStr\.data\(\)\s*,\s*numStr\.data\(\)\s*\+\s*numStr\.size\(\)\s*,\s*i\s*\)\s*;\s*if\s*\(\s*result\.ec\s*==\s*std::errc\{\}\s*\)", pn)
-    dbl = set(re.findall(r"double\s+d\s*=\s*([\w:]+)\s*\(\s*std::string\(numStr\)\.c_str\(\)", pn))
-    if not mi or len(dbl) != 1:
+    dbl = set(re.findall(r"out\s*=\s*Json\s*\(\s*([\w:]+)\s*\(\s*numStr\s*\)\s*\)\s*;", pn))
+    if not mi or len(dbl) != 1 or len(re.findall(r"out\s*=\s*Json\s*\(", pn)) != 3:
         raise TranslateError("_parseNumber: conversion calls changed")
     t += "/-- primitives the parser delegates to (their behaviour is a stated assumption of the model) -/\n"
     t += "def wsPredicate : String := %s\ndef digitPredicate : String := %s\n" % (lean_str(mw.group(1)), lean_str(sorted(digs)[0]))
